@@ -165,6 +165,13 @@ func c20Precedence(p *Prog, r *Report) {
 					}
 					return true
 				})
+			case *ast.ValueSpec:
+				// (one spec of a grouped declaration: var ( conf = defaultConfig; none Config ))
+				for i, nm := range s.Names {
+					if info.Defs[nm] == o && i < len(s.Values) && len(s.Values) == len(s.Names) && objOf(info, s.Values[i]) == defObj && defObj != nil {
+						ok = true
+					}
+				}
 			}
 			if ok {
 				inits = append(inits, n.ID)
